@@ -7,4 +7,4 @@ Extraction "heap_model.ml" mach_new mstep mrun settled balanced balanced_from fi
   hrun hstep sm_new sm_len key_of_raw raw_of_key count_op stale
   drop_closure release_heap_closure release_heap_closures release_open_closures close_upvalues_by_idx
   clone_heap close_heap_closure allocate_heap_closure allocate_closure box_alloc box_clone box_release
-  box_load box_store heap_retain_ev heap_release_ev event_of_tuple N.shiftl N.lor.
+  box_load box_store heap_retain_ev heap_release_ev event_of_tuple N.shiftl N.lor no_dangling.
